@@ -104,9 +104,9 @@ def H1(s):   # comments, docstring, blank lines
 def H2(s):   # locals renamed
     a = s.index("    def read_password(self):")
     head, body = s[:a], s[a:]
-    for old, new in (("clean_password", "pw"), ("password", "line"), ("more", "nxt"), (r"\bn\b", "count"), (r"\bx\b", "i"),
-                     ("msg", "err"), (r"\berror\b", "exc")):
-        body = re.sub(old if old.startswith("\\") else r"\b%s\b" % old, new, body)
+    for old, new in (("clean_password", "pw"), ("password", "line"), ("more", "nxt"), ("n", "count"), ("x", "i"),
+                     ("msg", "err"), ("error", "exc")):
+        body = re.sub(r"(?<![\\\w])%s(?!\w)" % old, new, body)     # not inside an escape like \n
     body = body.replace("self.num_lines", "self.num_passwords").replace("num_lines", "num_passwords")
     head = head.replace("invalid_hex", "code")
     return head + body
@@ -134,9 +134,11 @@ if __name__ == "__main__":
     name, tree = sys.argv[1], sys.argv[2]
     p = tree + "/" + F
     with open(p, encoding="utf-8", newline="") as f:
-        src = f.read()
+        raw = f.read()
+    crlf = "\r\n" in raw            # the file has CRLF line ends: edit with LF, write back what was there
+    src = raw.replace("\r\n", "\n")
     out = EDITS[name](src)
     if out == src:
         raise SystemExit("edit %s changed nothing" % name)
     with open(p, "w", encoding="utf-8", newline="") as f:
-        f.write(out)
+        f.write(out.replace("\n", "\r\n") if crlf else out)
